@@ -4,6 +4,7 @@
 package setec
 
 import (
+	"bytes"
 	"context"
 	"encoding"
 	"encoding/json"
@@ -176,7 +177,7 @@ func (f fieldInfo) apply(ctx context.Context, s *Store, fullName string) error {
 	}
 	switch f.vtype {
 	case bytesType:
-		f.value.Elem().Set(reflect.ValueOf(v.Get()))
+		f.value.Elem().Set(reflect.ValueOf(bytes.Clone(v.Get())))
 	case stringType:
 		f.value.Elem().Set(reflect.ValueOf(string(v.Get())))
 	case secretType:
